@@ -43,4 +43,27 @@ def run(tier, workers=None):
             return (3, None) if tier == "quick" else (5, 8000)
         return (3, None) if tier == "quick" else (5, 5000)
 
-    return e1common.run_configs("C06", tier, configs(tier), depth_of, workers=workers, assumptions=ASSUME)
+    def race_phase(rep):
+        """Two writers that bring the same UID under different names (E4, tree store, every schedule with at most one preemption):
+        whatever the schedule, the UID must not end up twice."""
+        import multiprocessing as mp
+
+        from . import c05
+
+        scen = [("new-c-uid9", "new-d-uid9"), ("new-c-dup-of-a", "del-a"), ("a-takes-uid-of-b", "del-b"), ("new-c-uid9", "put-a-X2")]
+        jobs = [("tree", mode, ops, 1, 400) for ops in scen for mode in (("processes",) if tier == "quick" else ("processes", "threads"))]
+        with mp.get_context("fork").Pool(min(len(jobs), workers or 16), maxtasksperchild=2) as pool:
+            results = pool.map(c05._scenario, jobs, chunksize=1)
+        n = 0
+        for vios, stats, label, err in results:
+            n += stats["executions"]
+            if err:
+                rep.harness_error("race phase %s: %s" % (label, err))
+            for sig, e in vios.items():
+                if "|final-state:duplicate-uid|" in sig:
+                    rep.violation(sig.replace("C05|", "C06|race|", 1), e["summary"], e["witness"])
+        return {"race_phase": {"scenarios": len(jobs), "schedules": n, "preemption_bound": 1}}
+
+    return e1common.run_configs("C06", tier, configs(tier), depth_of, workers=workers, extra=race_phase, assumptions=ASSUME + [
+        "race phase: same-UID two-writer scenarios on the tree store, every schedule with at most one preemption (E4); afterwards no UID may be carried by two members (the bare store's unlocked read-modify-write is C05's known finding and is not repeated here)",
+    ])
